@@ -1565,6 +1565,34 @@ func (i valueImporter) importCompositeValue(
 		)
 	}
 
+	if location != nil && compositeType.Kind != kind {
+		return nil, errors.NewDefaultUserError(
+			"cannot import value of type %s: expected %s, got %s",
+			qualifiedIdentifier,
+			compositeType.Kind.Name(),
+			kind.Name(),
+		)
+	}
+
+	if kind == common.CompositeKindEnum && location != nil {
+		// Enums always have an integer raw value field.
+		// It is required e.g. when the enum is used as a dictionary key.
+		hasRawValue := false
+		for _, field := range fields {
+			if field.Name != sema.EnumRawValueFieldName {
+				continue
+			}
+			_, hasRawValue = field.Value.(interpreter.IntegerValue)
+			break
+		}
+		if !hasRawValue {
+			return nil, errors.NewDefaultUserError(
+				"cannot import enum value of type %s: missing or invalid raw value",
+				qualifiedIdentifier,
+			)
+		}
+	}
+
 	if location == nil {
 		switch sema.NativeCompositeTypes[qualifiedIdentifier] {
 		case sema.PublicKeyType:
